@@ -82,8 +82,12 @@ def facts_dir(cfg="Q", verbose=True):
         if os.path.exists(marker):
             return d
         # purge older extractions of this configuration
-        for old in glob.glob(os.path.join(CACHE, "facts", cfg + "-*")):
+        # (entries are keyed by a hash of the sources, so an older one is still exact for the tree it was made from;
+        #  the two most recent are kept, which makes apply-check-restore loops cheap)
+        olds = sorted(glob.glob(os.path.join(CACHE, "facts", cfg + "-*")), key=os.path.getmtime)
+        for old in olds[:-2]:
             shutil.rmtree(old, ignore_errors=True)
+        shutil.rmtree(d, ignore_errors=True)   # an incomplete earlier attempt for this very key
         os.makedirs(d)
         conf = CONFIGS[cfg]
         tdir = os.path.join(CACHE, "target-" + cfg)
